@@ -45,6 +45,13 @@ def simMap [Mul α] [Sub α] [Add α] (a b e f : α) (p : P2 α) : P2 α :=
 /-- Change of the unit of length: multiply both coordinates by `k`. -/
 def scaleP [Mul α] (k : α) (p : P2 α) : P2 α := ⟨k * p.x, k * p.y⟩
 
+/-- Translation by the vector `(e, f)`. -/
+def translate [Add α] (e f : α) (p : P2 α) : P2 α := ⟨p.x + e, p.y + f⟩
+
+/-- A placement as the harness applies it: translate by `(e, f)`, then change the unit of length by
+the factor `k` (`k·(p + (e,f))`; the op-line headers `O e f` and `S log₂k`). -/
+def placeP [Add α] [Mul α] (k e f : α) (p : P2 α) : P2 α := scaleP k (translate e f p)
+
 /-- Σ of shoelace terms along an open path. -/
 def pathSum [Mul α] [Sub α] [Add α] [OfNat α 0] : List (P2 α) → α
   | a :: b :: t => cross a b + pathSum (b :: t)
